@@ -182,6 +182,13 @@ func c05Cases(level int) []SCase {
 								"$defs":      J{"D": l, "DN": nl}}
 							out = append(out, SCase{ID: "C05/def/" + name, Schema: def, Cfg: baseCfg(), Axes: map[string]string{"pos": "def", "leaf": name}})
 							out = append(out, SCase{ID: "C05/root/" + name, Schema: space.Clone(l), Cfg: baseCfg(), Axes: map[string]string{"pos": "root", "leaf": name}})
+							if typ == "integer" {
+								// the same integer schemas under --min-sized-ints: the option rewrites bounds while choosing the type
+								sz := baseCfg()
+								sz.MinSizedInts = true
+								out = append(out, SCase{ID: "C05/props/" + name + "/sized", Schema: space.Clone(root), Cfg: sz, Axes: map[string]string{"pos": "props", "leaf": name + "/sized"}})
+								out = append(out, SCase{ID: "C05/def/" + name + "/sized", Schema: space.Clone(def), Cfg: sz, Axes: map[string]string{"pos": "def", "leaf": name + "/sized"}})
+							}
 						}
 					}
 				}
